@@ -51,6 +51,30 @@ def r23s_finalize(repo, sink):
                    bad=f"{path} -> {entry.qualname}: with spilled entries 0 and 2 in self.{attr}, finalize removes files of entries {removed}"
                        f"{' and ' + repr(other) if other else ''}: spill files stay behind after the composition was finalized")
     sink.floor("R23", "classes owning a spill container", n, 8)
+    # reading before finalizing: a file entry that was read (static output: served again and again; dynamic output:
+    # served, older entries discarded) is still removed - each spill file exactly once over get_data + finalize
+    out = repo.cls("Output")
+    gd, fin = repo.resolve(out, "get_data", "method"), repo.resolve(out, "finalize", "method")
+    for name, static, kinds, req in (("static", True, ["file"], None), ("dynamic", False, ["file", "ram", "file"], ("eq", 2))):
+        tgt = Obj(label="A")
+        o = _output_obj(repo, len(kinds), kinds, {tgt: None}, static=static)
+        it = BufInterp(repo, make_order(len(kinds), {Q: req or ("eq", 0)}))
+        try:
+            for _ in range(2 if static else 1):
+                it.run(gd, [Q, tgt], self_obj=o)
+            it.run(fin, [], self_obj=o)
+        except Raised as r:
+            sink.bad("R23", f"read-then-finalize:{name}", gd, f"get_data / finalize raise {r.name} on spilled entries")
+            continue
+        except (Undecided, AnalysisError) as exc:
+            sink.unknown("R23", f"read-then-finalize:{name}", gd, f"outside vocabulary: {exc}")
+            continue
+        removed = sorted(e[1].args[0] for e in it.effects if e[0] == "remove" and isinstance(e[1], Sym) and e[1].op == "P")
+        want = [i for i, k in enumerate(kinds) if k == "file"]
+        sink.check(removed == want, "R23", f"read-then-finalize:{name}", fin,
+                   ok=f"spill files of entries {want} are removed exactly once after the data was read",
+                   bad=f"{name} output with spilled entries {want}: after reading and finalizing, files of entries {removed} were removed "
+                       "(a file that was read must still be cleaned up, and only once)")
 
 
 # =========================================================================== R24s
